@@ -106,6 +106,9 @@ def cases(draw):
         case["b"] = mutant
         case["mutation"] = op
         values += draw(values_for(R.to_schema(mutant), 3, 5))
+    if case.get("mutation") == "nest":
+        # values that several members accept at once (what a oneOf is sensitive to)
+        values += [0, 1, 5, -1, 1.5, "a", None, {}, [], True]
     if "multipleOf" in canon(schema_a) and draw(st.booleans()):
         # 2 == 2.0 makes elements equal: they must then agree beyond float precision too
         values += draw(st.lists(st.sampled_from(BIG_NUMBERS), min_size=1, max_size=3))
